@@ -2,6 +2,7 @@ import HappyProofs.C19.Assign
 import HappyProofs.C19.MQAccount
 import HappyProofs.C19.MQAck
 import HappyProofs.C19.MQAckFinal
+import HappyProofs.C19.MQRedeliv
 import HappyProofs.C19.MQOrder
 import HappyProofs.C19.MQLimit
 import HappyProofs.C19.MQReach
@@ -86,6 +87,14 @@ theorem ack_of_owed_message_takes_effect (cfg : Cfg) (hl : cfg.legacy = false)
     (sched : List (Nat × Act)) :
     jAckTakes {} (MQ.run cfg {} sched) = none :=
   HappyModel.C19.ack_of_owed_message_takes_effect cfg hl sched
+
+/-- a requested redelivery is never lost: `schedule_redelivery(k)` on a message that is in flight with no redelivery
+    timer pending hands out a redelivery event or, at the limit, dead-letters (never "nothing to do": no message stuck
+    in flight for ever), and a timer that fires for a message the queue owes while a consumer is subscribed starts a
+    delivery — whatever subscribe / unsubscribe operations happen around the timer -/
+theorem redelivery_never_stuck (cfg : Cfg) (hl : cfg.legacy = false) (sched : List (Nat × Act)) :
+    jRedeliv {} (MQ.run cfg {} sched) = none :=
+  HappyModel.C19.redelivery_never_stuck cfg hl sched
 
 /-- every delivery picks a subscribed consumer, is not stamped in the past, and is received by that
     consumer exactly once at t0 + latency; at a quiescent end nothing is missing -/
